@@ -82,3 +82,92 @@ pub fn lexicase<'p, R: Ord, G: Rng + ?Sized>(num_test_cases: usize, population: 
     if m != "lexicase_tie_by_position" { candidates.shuffle(rng); }
     Some(candidates.first().copied().ok_or("LexEmpty".to_string()))
 }
+
+// ---------------------------------------------------------------------------------------------
+// weighted combinations: an edited copy of weighted/weighted_pair.rs
+
+use crate::fam_wsel::{Node, Static};
+use crate::rng::SplitMix;
+use ec_core::operator::selector::Selector;
+use ec_core::weighted::error::{SelectionError, WeightSumOverflow, WeightedPairError, ZeroWeight};
+use ec_core::weighted::with_weight::WithWeight;
+use ec_core::weighted::Weighted;
+use rand::distr::{Bernoulli, Distribution};
+
+pub struct MutPair<A, B> {
+    a: A,
+    b: B,
+    distr: Option<Bernoulli>,
+    weight_sum: u32,
+}
+impl<A: WithWeight, B: WithWeight> MutPair<A, B> {
+    pub fn new(a: A, b: B) -> Result<Self, WeightSumOverflow> {
+        let m = active();
+        let a_weight = a.weight();
+        let b_weight = b.weight();
+        let weight_sum = if m == "pair_wrapping_add" { a_weight.wrapping_add(b_weight) } else { a_weight.checked_add(b_weight).ok_or(WeightSumOverflow(a_weight, b_weight))? };
+        let distr = match m {
+            // a/(b) instead of a/(a+b)
+            "pair_a_over_b" => Bernoulli::from_ratio(a_weight, b_weight).ok(),
+            // probability of the *other* branch
+            "pair_swapped" => Bernoulli::from_ratio(b_weight, weight_sum).ok(),
+            // float probability with a floor, so that a zero-weight branch stays reachable
+            "pair_zero_reachable" => Bernoulli::new((a_weight as f64 / weight_sum.max(1) as f64).clamp(0.05, 0.95)).ok(),
+            _ => Bernoulli::from_ratio(a_weight, weight_sum).ok(),
+        };
+        Ok(Self { a, b, distr, weight_sum })
+    }
+}
+impl<A, B> WithWeight for MutPair<A, B> {
+    fn weight(&self) -> u32 { self.weight_sum }
+}
+impl<P, A, B> Selector<P> for MutPair<A, B>
+where
+    P: ec_core::population::Population,
+    A: WithWeight + Selector<P>,
+    B: WithWeight + Selector<P>,
+{
+    type Error = SelectionError<WeightedPairError<A::Error, B::Error>>;
+    fn select<'pop, R: Rng + ?Sized>(&self, population: &'pop P, rng: &mut R) -> Result<&'pop P::Individual, Self::Error> {
+        let Some(distr) = self.distr else { return Err(ZeroWeight.into()); };
+        let first = distr.sample(rng);
+        if active() == "pair_both_called" { let _ = self.b.select(population, rng); }
+        if first { self.a.select(population, rng).map_err(WeightedPairError::A) } else { self.b.select(population, rng).map_err(WeightedPairError::B) }
+            .map_err(SelectionError::Selector)
+    }
+}
+
+type Log = std::sync::Arc<std::sync::Mutex<Vec<usize>>>;
+
+pub fn weighted<R: Ord + 'static>(node: &Node, pop: &Vec<Ind<R>>, rng: &mut SplitMix, log: &Log) -> Option<String> {
+    let m = active();
+    if m.is_empty() { return None; }
+    let res = |r: Result<&Ind<R>, String>| match r {
+        Ok(x) => format!("ok {}", index_of(pop, x).unwrap()),
+        Err(e) => format!("err {e}"),
+    };
+    let mk = |st: &Static, i: usize| Weighted::new(AnyLeaf { leaf: st.leaves[i].0.clone(), id: i, log: log.clone() }, st.leaves[i].1);
+    match node {
+        Node::S(st) if m.starts_with("pair_") && st.code == 2 => Some(match MutPair::new(mk(st, 0), mk(st, 1)) {
+            Ok(s) => res(s.select(pop, rng).map_err(|e| e.canon())),
+            Err(e) => format!("builderr {} {}", e.0, e.1),
+        }),
+        Node::S(st) if m.starts_with("pair_") && st.code == 3 => Some(match MutPair::new(mk(st, 0), mk(st, 1)).and_then(|p| MutPair::new(p, mk(st, 2))) {
+            Ok(s) => res(s.select(pop, rng).map_err(|e| e.canon())),
+            Err(e) => format!("builderr {} {}", e.0, e.1),
+        }),
+        // a weight-0 `Weighted` that forgets its check
+        Node::S(st) if m == "weighted_zero_ok" && st.code == 1 => {
+            let l = AnyLeaf { leaf: st.leaves[0].0.clone(), id: 0, log: log.clone() };
+            Some(res(l.select(pop, rng).map_err(|e| format!("Selector({})", e.canon()))))
+        }
+        // DynWeighted that ignores the weights (uniform choice among its members)
+        Node::Dyn(items) if m == "dyn_uniform" && items.iter().all(|(n, _)| matches!(n, Node::S(s) if s.code == 0)) => {
+            let i = (0..items.len()).collect::<Vec<_>>().choose(rng).copied().unwrap();
+            let Node::S(st) = &items[i].0 else { unreachable!() };
+            let l = AnyLeaf { leaf: st.leaves[0].0.clone(), id: i, log: log.clone() };
+            Some(res(l.select(pop, rng).map_err(|e| format!("DynOther({})", e.canon()))))
+        }
+        _ => None,
+    }
+}
